@@ -293,12 +293,21 @@ def run(tier, seed):
     env = dict(os.environ, PYTHONPATH=f"{core.REPO / 'src'}", JAX_PLATFORMS="cpu")
     env.pop("JAX_ENABLE_X64", None)
     outs_ = {}
-    for order in ("problem_first", "x64_first"):
+    for order in ("problem_first", "x64_first", "single_precision_solver_built_after", "single_precision_solver_built_before"):
         p = subprocess.run([core.PY, str(core.VERIF / "harness" / "c20_child.py"), order], env=env, capture_output=True, text=True, timeout=600)
         outs_[order] = core.parse_resp(p.stdout.strip().splitlines()[-1]) if p.returncode == 0 and p.stdout.strip() else {"error": p.stderr[-300:]}
         res.evaluations += 1
     a, b_ = outs_["problem_first"], outs_["x64_first"]
     res.sample({"precision": outs_})
+    # a solver for which double precision is requested computes in float64 whatever other solvers (single precision requested) exist in the process
+    for order in ("single_precision_solver_built_after", "single_precision_solver_built_before"):
+        c_ = outs_[order]
+        if c_.get("values_dtype") != "float64" or c_.get("gamma_dtype") != "float64" or c_.get("values") != b_.get("values"):
+            res.disagreements.append({"channel": "C20/precision-other-solver", "case": {"order": order}, "model": str(b_)[:300], "impl": str(c_)[:300], "failing_input": True,
+                                      "what": f"double precision requested, 64-bit mode enabled first, but with a single-precision solver in the same process ({order}) "
+                                              f"solve() returns {c_.get('values_dtype')} values / other values than alone", "key": "precision-other-solver"})
+        else:
+            res.count("precision-with-other-solver:float64")
     if a.get("values_dtype") != "float64" or a.get("gamma_dtype") != "float64":
         res.disagreements.append({"channel": "C20/precision-order", "case": {"order": "problem created before the solver, 64-bit mode not enabled beforehand (README order)"}, "model": str(b_)[:200], "impl": str(a)[:300],
                                   "failing_input": True, "what": f"with double precision requested the solver's gamma is {a.get('gamma_dtype')} and solve() returns {a.get('values_dtype')} values", "key": "precision-order"})
